@@ -14,7 +14,8 @@ From Delb.Tree Require Import ATree ITree.
 From Delb.XPath Require Import Ast Nav FnLang.
 From Delb.Gen Require Import GenXEval.
 
-Inductive exn := XPathEvaluationError | AttributeError | AssertionError | TypeError | NotImplementedError | OtherError.
+Inductive exn := XPathEvaluationError | AttributeError | AssertionError | TypeError | NotImplementedError | OtherError
+  | ValueError | AmbiguousTreeError.     (* the two documented refusals of fetch_or_create_by_xpath (C15) *)
 Inductive fault := FRejected (e : exn) | FCrash (e : exn).
 Inductive res (A : Type) := Ok (a : A) | Fault (f : fault).
 Arguments Ok {A} a.
